@@ -9,10 +9,10 @@ import (
 
 func init() {
 	register(&ruleSet{
-		id:         "C16",
-		title:      "string/number/object methods, num(), json()",
-		run:        runC16,
-		decided:    "each documented method / builtin is dispatched to the library operation that has the documented contract, on the receiver's payload and the checked argument in the documented order, guarded by a receiver-kind test, returning the documented neutral value otherwise (method table extracted from the prototype literals, compared as normalised dataflow); pluck builds a fresh object, stores one fresh cell per requested key and does not write through its receiver; method names of each prototype are exactly the documented ones." +
+		id:    "C16",
+		title: "string/number/object methods, num(), json()",
+		run:   runC16,
+		decided: "each documented method / builtin is dispatched to the library operation that has the documented contract, on the receiver's payload and the checked argument in the documented order, guarded by a receiver-kind test, returning the documented neutral value otherwise (method table extracted from the prototype literals, compared as normalised dataflow); pluck builds a fresh object, stores one fresh cell per requested key and does not write through its receiver; method names of each prototype are exactly the documented ones." +
 			" The argument helper tests the index against the argument count before indexing." +
 			" Indexing a string yields string(byte); method lookup binds a fresh cell per receiver; numbers are never updated in place.",
 		notDecided: "the algebraic laws themselves (split/join, rounding of every double): library semantics, trusted.",
